@@ -36,7 +36,7 @@ theorem addsubmul_promote_double (R : Rounding) (a b : Num) (h : isDbl a = true 
     opMul R a b = opMul R (.dbl (asD R a)) (.dbl (asD R b)) := by
   obtain ⟨hA, hB⟩ := intOvf_of_finite R a b hi
   cases a <;> cases b <;> simp [isDbl] at h <;> simp [intOvf] at hA hB <;>
-    simp [opAdd, opSub, opMul, coerce, mixedOverflow, intOvf, isFloat, asDec, liftF, asD, hA, hB]
+    simp [opAdd, opSub, opMul, coerce, mixedOverflow, intOvf, isFloat, promF, isFlt, isDbl, asDec, liftF, asD, hA, hB]
 
 theorem isZero_ofInt (R : Rounding) (hF : Faithful R) (n : Int) :
     Dbl.isZero (ofInt R n) = (n == 0) := by
@@ -109,7 +109,7 @@ theorem div_promote_double (R : Rounding) (hF : Faithful R) (v : Ver) (a b : Num
   have hs := signOf_ofInt R hF
   obtain ⟨hA, hB⟩ := intOvf_of_finite R a b hi
   cases a <;> cases b <;> simp [isDbl] at h <;> simp [intOvf] at hA hB <;>
-    simp [opDiv, coerce, mixedOverflow, intOvf, isFloat, asDec, liftF, asD, isZero, isFloat, hz, hs, zeroIsNeg_flt,
+    simp [opDiv, coerce, mixedOverflow, intOvf, isFloat, promF, isFlt, isDbl, asDec, liftF, asD, isZero, isFloat, hz, hs, zeroIsNeg_flt,
       signOf_flt, hA, hB]
   · rename_i d n
     by_cases hn : n = 0
@@ -133,38 +133,19 @@ theorem idiv_promote_double (R : Rounding) (hF : Faithful R) (a b : Num)
   have hn := isNan_ofInt R hF
   obtain ⟨hA, hB⟩ := intOvf_of_finite R a b hi
   cases a <;> cases b <;> simp [isDbl] at h <;> simp [intOvf] at hA hB <;>
-    simp [opIdiv, coerce, mixedOverflow, intOvf, isFloat, asDec, asD, isZero, numIsInf, numIsNan, hz, hn, hA, hB] <;>
+    simp [opIdiv, coerce, mixedOverflow, intOvf, isFloat, promF, isFlt, isDbl, asDec, asD, isZero, numIsInf, numIsNan, hz, hn, hA, hB] <;>
     (try rfl)
 
 
 theorem mod_promote_double (R : Rounding) (hF : Faithful R) (v : Ver) (a b : Num)
-    (h : isDbl a = true ∨ isDbl b = true) (hi : intsFinite R a b)
-    (hk : trigF06t R v .mod a b = false) :
+    (h : isDbl a = true ∨ isDbl b = true) (hi : intsFinite R a b) :
     opMod R v a b = opMod R v (.dbl (asD R a)) (.dbl (asD R b)) := by
   have hz := isZero_ofInt R hF
   have hn := isNan_ofInt R hF
   obtain ⟨hA, hB⟩ := intOvf_of_finite R a b hi
   cases a <;> cases b <;> simp [isDbl] at h <;> simp [intOvf] at hA hB <;>
-    simp [trigF06t, floatTyped, isFlt, isDbl, coerce, numIsInf, isZero] at hk <;>
-    simp [opMod, coerce, mixedOverflow, intOvf, isFloat, asDec, asD, isZero, isFloat, numIsInf, numIsNan, liftF, hz, hn,
-      hA, hB] <;> (try rfl)
-  · rename_i n d
-    by_cases hz' : Dbl.isZero d = true
-    · simp [hz']
-    · by_cases hc : Dbl.isInf d = true ∧ ¬ n = 0
-      · by_cases hv : v = Ver.v10
-        · simp [hz', hc, hv]
-        · exact absurd (hk hv hc.1) hc.2
-      · simp only [hz', hc, if_false]
-  · rename_i x d
-    by_cases hz' : Dbl.isZero d = true
-    · simp [hz']
-    · by_cases hc : (Dbl.isInf d = true ∧ Dbl.isInf x = false) ∧ Dbl.isZero x = false
-      · by_cases hv : v = Ver.v10
-        · simp [hz', hc, hv]
-        · have := hk hv hc.1.1 hc.1.2
-          rw [hc.2] at this; cases this
-      · simp only [hz', hc, if_false]
+    simp [opMod, coerce, mixedOverflow, intOvf, isFloat, promF, isFlt, isDbl, asDblOf, asDec, asD, isZero, isFloat,
+      numIsInf, numIsNan, liftF, hz, hn, hA, hB] <;> (try rfl)
 
 /-- the float payload of an operand is well-formed -/
 def numWf : Num → Prop
@@ -190,27 +171,16 @@ theorem addsubmul_dbl_eq_spec (R : Rounding) (x y : Dbl) :
     (opSub R (.dbl x) (.dbl y)).map absNum = specBin R .sub (.double x) (.double y) ∧
     (opMul R (.dbl x) (.dbl y)).map absNum = specBin R .mul (.double x) (.double y) := by
   refine ⟨?_, ?_, ?_⟩ <;>
-    simp [opAdd, opSub, opMul, coerce, mixedOverflow, intOvf, isFloat, asDec, liftF, fadd, fsub, fmul, specBin, promote, XVal.ty, Ty.rank,
+    simp [opAdd, opSub, opMul, coerce, mixedOverflow, intOvf, isFloat, promF, isFlt, isDbl, asDec, liftF, fadd, fsub, fmul, specBin, promote, XVal.ty, Ty.rank,
       XVal.toRat?, floatBin, XVal.toDbl, mkFloating, absNum, Except.map, pure, Except.pure]
 
-theorem trigF06x_promote (R : Rounding) (hF : Faithful R) (v : Ver) (a b : Num)
-    (h : isDbl a = true ∨ isDbl b = true) (hi : intsFinite R a b) :
-    trigF06x R v .mod (.dbl (asD R a)) (.dbl (asD R b)) = trigF06x R v .mod a b := by
-  have hz := isZero_ofInt R hF
-  have hn := isNan_ofInt R hF
-  cases a <;> cases b <;> simp [isDbl] at h <;>
-    simp [trigF06x, coerce, mixedOverflow, intOvf, isFloat, asD, numIsInf, numIsNan, isZero, hz, hn]
-  · rename_i n d; simp [hi.1 n rfl]
-  · rename_i d n; simp [hi.2 n rfl]
-
-/-- PARTIAL (F06t, F06x): every operator on operands whose promoted type is xs:double — one operand is an
+/-- every operator on operands whose promoted type is xs:double — one operand is an
 xs:double, the other an xs:integer, xs:decimal, xs:float or xs:double — returns what F&O specifies for the
 promoted operands: integer→double and decimal→double conversions are the `R`-rounded values, then the
 IEEE/F&O dispatch. -/
 theorem double_ops_eq_spec (R : Rounding) (hF : Faithful R) (v : Ver) (op : BinOp) (a b : Num)
     (h : isDbl a = true ∨ isDbl b = true) (hi : intsFinite R a b) (hwa : numWf a) (hwb : numWf b)
-    (hk : trigF06t R v op a b = false) (hx : trigF06x R v op a b = false) :
-    (modelBin R v op a b).map absNum = specBin R op (absNum a) (absNum b) := by
+    : (modelBin R v op a b).map absNum = specBin R op (absNum a) (absNum b) := by
   rw [spec_promote_double R op a b h]
   have hw := asD_wf R hF a hwa
   cases op with
@@ -220,7 +190,7 @@ theorem double_ops_eq_spec (R : Rounding) (hF : Faithful R) (v : Ver) (op : BinO
   | div => simp only [modelBin]; rw [div_promote_double R hF v a b h hi]; exact div_dbl_eq_spec R v _ _ hw
   | idiv => simp only [modelBin]; rw [idiv_promote_double R hF a b h hi]; exact idiv_dbl_eq_spec R _ _
   | mod =>
-    simp only [modelBin]; rw [mod_promote_double R hF v a b h hi hk]
-    exact mod_dbl_eq_spec_partial R v _ _ (by rw [trigF06x_promote R hF v a b h hi]; exact hx)
+    simp only [modelBin]; rw [mod_promote_double R hF v a b h hi]
+    exact mod_dbl_eq_spec R v _ _
 
 end EPV.Arith
